@@ -352,10 +352,47 @@ type hstate struct {
 	connAt    int64 // unix nano of the last relay.connUpdate
 	curConn   interface{}
 	curDead   bool
-	replaced  int // a new connection replaced one the relay had not seen dead (two connectors raced)
+	replaced  int                   // a new connection replaced one the relay had not seen dead (two connectors raced)
 	firstAdd  map[interface{}]int64 // conn -> unix nano of its first keepSafe.Add
 	redoSpan  int64                 // max over redo collections of (GetAll time - first Add of that conn), ms
 	ds        *dsGate               // dead-send gate (nil = not armed)
+	lastSrc   string                // where the relay took its current line from: "in" | "unspool"
+	unspFull  int                   // lines taken from the spool while conn.In was full (len == cap at relay.unspool)
+	unspDrop  int                   // lines taken from the spool that nonBlockingSend dropped (slow_conn)
+	hold      *wHold                // writer hold of the C06 spool-replay gate (nil = not armed)
+}
+
+// wHold (C06, kind spoolgate) holds the connection writer of the first connection made after arming at hd.recv,
+// i.e. right after it has taken a line from conn.In -- where it sits while a socket write does not return.  The
+// spool replay then fills conn.In; `fired` is closed when the relay has taken a line from the spool for that
+// connection while its In was full.  The hold has a deadline: the code under test is never blocked for ever.
+type wHold struct {
+	conn     interface{}
+	held     bool
+	firedSet bool
+	expired  bool
+	inLen    int
+	inCap    int
+	heldCh   chan struct{}
+	fired    chan struct{}
+	release  chan struct{}
+	once     sync.Once
+}
+
+func (st *hstate) armHold() *wHold {
+	h := &wHold{heldCh: make(chan struct{}), fired: make(chan struct{}), release: make(chan struct{})}
+	st.mu.Lock()
+	st.hold = h
+	st.mu.Unlock()
+	return h
+}
+
+func (h *wHold) letGo() { h.once.Do(func() { close(h.release) }) }
+
+func (st *hstate) unspool() (full, drop, taken int) {
+	st.mu.Lock()
+	defer st.mu.Unlock()
+	return st.unspFull, st.unspDrop, st.counts["relay.unspool"]
 }
 
 // dsGate forces the interleaving "the connection dies after the relay's aliveness check at the top of an
@@ -440,6 +477,20 @@ func hook(name string, args ...interface{}) {
 			}
 			return
 		}
+		if h := st.hold; h != nil && !h.held {
+			h.held = true
+			h.conn = args[1]
+			st.mu.Unlock()
+			close(h.heldCh)
+			select {
+			case <-h.release:
+			case <-time.After(20 * time.Second):
+				st.mu.Lock()
+				h.expired = true
+				st.mu.Unlock()
+			}
+			return
+		}
 		if atomic.LoadInt32(&st.armed) == 1 {
 			atomic.StoreInt32(&st.armed, 2)
 			st.gateConn = args[1]
@@ -510,7 +561,22 @@ func hook(name string, args ...interface{}) {
 				close(st.release)
 			}
 		}
+	case "relay.in":
+		st.lastSrc = "in"
+	case "send.drop":
+		if st.lastSrc == "unspool" {
+			st.unspDrop++
+		}
 	case "relay.unspool":
+		st.lastSrc = "unspool"
+		if c, _ := args[1].(*destination.Conn); c != nil && len(c.In) == cap(c.In) {
+			st.unspFull++
+			if h := st.hold; h != nil && h.held && !h.firedSet && args[1] == h.conn {
+				h.firedSet = true
+				h.inLen, h.inCap = len(c.In), cap(c.In)
+				close(h.fired)
+			}
+		}
 		if len(args) >= 5 {
 			a, _ := args[3].(bool)
 			b, _ := args[4].(bool)
@@ -699,7 +765,7 @@ var runTag = fmt.Sprintf("p%dt%d", os.Getpid(), time.Now().UnixNano()%100000)
 
 type c06Scn struct {
 	ID       int    `json:"id"`
-	Kind     string `json:"kind"`  // refuse | synhole | blackhole | slow | healthy | closing | mixed | switch | stall | stallclose
+	Kind     string `json:"kind"`  // refuse | synhole | blackhole | slow | healthy | closing | mixed | switch | stall | stallclose | spool*
 	Route    string `json:"route"` // all | first | chash
 	ConnBuf  int    `json:"connbuf"`
 	IoBuf    int    `json:"iobuf"`
@@ -709,6 +775,12 @@ type c06Scn struct {
 	RcvBuf   int    `json:"rcvbuf"`
 	CloseAft int64  `json:"close_after"`
 	StallMs  int    `json:"stall_ms"` // kind stall: how long the endpoint keeps not reading once the writer is blocked
+	// kinds spoolbh | spoolstall | spoolclose | spoolgate (spooling enabled, TestC06Spool)
+	Backlog  int `json:"backlog"`   // lines handed while the endpoint is absent (they go to the disk spool)
+	ReconnMs int `json:"reconn_ms"` // reconnect period (= the period of the relay's slow flags)
+	Cycles   int `json:"cycles"`    // how many times a line taken from the spool must have met a full conn.In
+	Burst    int `json:"burst"`     // lines handed back to back per cycle during the replay
+	Post     int `json:"post"`      // lines handed after the endpoint's last move
 	Switches []struct {
 		At   int    `json:"at"`
 		Mode string `json:"mode"`
@@ -1047,6 +1119,308 @@ wait:
 			"slow_conn": int(c.slowConn), "slow_spool": int(c.slowSpool), "down": int(c.down), "out": int(c.out),
 			"online": x.d.Snapshot().Online, "quiesced": quiesced, "accepted": int(atomic.LoadInt64(&x.e.accepted))})
 	}
+	return evs
+}
+
+// ---------------------------------------------------------------- C06, spooling enabled
+//
+// Outage first (the handed lines go to the disk spool), then the endpoint comes back, the destination
+// reconnects and replays the spool -- and the endpoint misbehaves during the replay:
+//
+//	spoolbh     accepts, never reads (small SO_RCVBUF): conn.In, io buffer and kernel buffers fill
+//	spoolstall  the same until lines taken from the spool have met a full conn.In `cycles` times, then it
+//	            reads everything (stall-then-resume)
+//	spoolclose  the same, then it closes the connection mid-replay and serves the next one normally
+//	spoolgate   deterministic variant: the connection writer is held at hd.recv (where it sits while a socket
+//	            write does not return), the replay fills conn.In, then traffic is handed
+//
+// Traffic keeps being handed through Route.Dispatch the whole time, every call is timed (event lat, the only
+// event of these scenarios that carries a verdict).  Traffic during the replay comes in bursts separated by
+// more than two reconnect periods: the relay unspools only while it has not dropped anything for two periods,
+// so every gap gives the replay another go at the full connection queue.
+type timedRoute struct {
+	r                              route.Route
+	prefix                         string
+	suffix                         []byte
+	callStart, maxNs, over, handed int64
+}
+
+func (tr *timedRoute) hand(i int) {
+	buf := mkLine(tr.prefix, i, tr.suffix)
+	t0 := time.Now()
+	atomic.StoreInt64(&tr.callStart, t0.UnixNano())
+	tr.r.Dispatch(buf)
+	dt := int64(time.Since(t0))
+	atomic.StoreInt64(&tr.callStart, 0)
+	if dt > atomic.LoadInt64(&tr.maxNs) {
+		atomic.StoreInt64(&tr.maxNs, dt)
+	}
+	if dt > int64(5*time.Second) {
+		atomic.AddInt64(&tr.over, 1)
+	}
+	atomic.StoreInt64(&tr.handed, int64(i))
+}
+
+// pending: how long the call in progress has been running (0 = none in progress)
+func (tr *timedRoute) pending() time.Duration {
+	cs := atomic.LoadInt64(&tr.callStart)
+	if cs == 0 {
+		return 0
+	}
+	return time.Duration(time.Now().UnixNano() - cs)
+}
+
+func TestC06Spool(t *testing.T) {
+	out := hx.Out(t)
+	var scns []c06Scn
+	loadScenarios(t, "VERIF_C06S_SCN", &scns)
+	destination.VerifSetHook(hook)
+	lg := hx.NewLog(filepath.Join(out, "c06s_trace.ndjson"))
+	defer lg.Close()
+	prog := hx.NewLog(filepath.Join(out, "c06s_progress.ndjson"))
+	prog.Unbuffered = true
+	defer prog.Close()
+	spoolRoot := hx.ShmBase()
+	if _, err := os.Stat(spoolRoot); err != nil {
+		spoolRoot = out
+	}
+	spoolRoot, err := ioutil.TempDir(spoolRoot, "verif-c06-")
+	if err != nil {
+		t.Fatal(err)
+	}
+	defer os.RemoveAll(spoolRoot)
+	var wg sync.WaitGroup
+	sem := make(chan struct{}, 3)
+	var lmu sync.Mutex
+	for i := range scns {
+		s := scns[i]
+		wg.Add(1)
+		go func() {
+			defer wg.Done()
+			sem <- struct{}{}
+			defer func() { <-sem }()
+			prog.Emit(ev{"ev": "start", "scn": s.ID, "kind": s.Kind})
+			evs := runC06Spool(s, spoolRoot)
+			lmu.Lock()
+			for _, e := range evs {
+				lg.Emit(e)
+			}
+			lmu.Unlock()
+			prog.Emit(ev{"ev": "end", "scn": s.ID})
+		}()
+	}
+	wg.Wait()
+}
+
+func runC06Spool(s c06Scn, spoolRoot string) []ev {
+	evs := []ev{{"ev": "scn", "scn": s.ID, "kind": s.Kind, "prop": "C06", "spool": true}}
+	rname := fmt.Sprintf("c06s%s_s%d", runTag, s.ID)
+	prefix := rname + "."
+	suffix := mkSuffix(s.LineLen)
+	e := newEndpoint(prefix, suffix, s.Lines, freePort(), s.RcvBuf) // absent for now
+	keep(e)
+	dir := filepath.Join(spoolRoot, rname)
+	os.MkdirAll(dir, 0755)
+	d := newDest(rname, e.addr(), dir, true, s.FlushMs, s.ReconnMs, s.ConnBuf, s.IoBuf, 10000, time.Microsecond)
+	key := d.Key
+	st := newHState(key)
+	base := readCounters(key)
+	m, _ := matcher.New("", "", "", "", "", "")
+	r, _ := route.NewSendAllMatch(rname, m, []*destination.Destination{d})
+	tr := &timedRoute{r: r, prefix: prefix, suffix: suffix}
+	online := func() bool { return d.Snapshot().Online }
+	gap := time.Duration(3*s.ReconnMs+5) * time.Millisecond
+
+	var failed string // the scenario could not be set up (no verdict)
+	var hold *wHold
+	var moved int32 // the endpoint has made its last move (resume / close)
+	move := func() {
+		if !atomic.CompareAndSwapInt32(&moved, 0, 1) {
+			return
+		}
+		switch s.Kind {
+		case "spoolstall":
+			atomic.StoreInt32(&e.mode, mHealthy)
+		case "spoolclose":
+			e.closeConns()
+			atomic.StoreInt32(&e.mode, mHealthy)
+		}
+	}
+	rep := ev{"ev": "replay", "scn": s.ID, "kind": s.Kind, "saturated": false, "forced": false}
+	var gateEv ev
+	var repMu sync.Mutex
+	done := make(chan struct{})
+	go func() {
+		defer close(done)
+		i := 0
+		// 1. outage: everything goes to the spool (paced so that the spool's small real-time channel keeps up)
+		for i < s.Backlog {
+			i++
+			tr.hand(i)
+			poll(10*time.Second, func() bool { return d.VerifSpoolBuffered() <= 4 })
+		}
+		if !poll(30*time.Second, func() bool { return st.spoolIdle() && d.VerifSpoolBuffered() == 0 }) {
+			failed = "spool did not take the backlog in"
+			return
+		}
+		c1 := readCounters(key).sub(base)
+		depth0 := int(d.VerifSpoolDepth())
+		repMu.Lock()
+		rep["backlog"], rep["slow_spool_outage"], rep["down_outage"] = depth0, int(c1.slowSpool), int(c1.down)
+		repMu.Unlock()
+		if depth0 < s.Backlog*9/10 {
+			failed = fmt.Sprintf("backlog of %d lines instead of %d", depth0, s.Backlog)
+			return
+		}
+		// 2. the endpoint is back: accepts, does not read
+		if s.Kind == "spoolgate" {
+			hold = st.armHold()
+		}
+		atomic.StoreInt32(&e.mode, mBlackhole)
+		if err := e.up(); err != nil {
+			failed = "listen: " + err.Error()
+			return
+		}
+		if !poll(20*time.Second, online) {
+			failed = "online"
+			return
+		}
+		t0 := time.Now()
+		if s.Kind == "spoolgate" {
+			// nothing is handed until the replay has run into the held writer's full queue (deterministic)
+			outcome := "fired"
+			select {
+			case <-hold.fired:
+			case <-time.After(30 * time.Second):
+				outcome = "not-fired"
+				select {
+				case <-hold.heldCh:
+				default:
+					outcome = "writer-not-held"
+				}
+			}
+			st.mu.Lock()
+			if hold.expired {
+				outcome = "writer-hold-expired"
+			}
+			g := ev{"ev": "ugate", "scn": s.ID, "outcome": outcome, "connbuf": s.ConnBuf, "in_len": hold.inLen, "in_cap": hold.inCap}
+			st.mu.Unlock()
+			repMu.Lock()
+			gateEv = g
+			rep["saturated"] = outcome == "fired"
+			rep["fill_ms"] = int(time.Since(t0) / time.Millisecond)
+			repMu.Unlock()
+			if outcome == "fired" {
+				for j := 0; j < s.Cycles*s.Burst && i < s.Lines-s.Post; j++ {
+					i++
+					tr.hand(i)
+				}
+				st.mu.Lock()
+				exp := hold.expired
+				st.mu.Unlock()
+				if exp {
+					repMu.Lock()
+					gateEv["outcome"] = "writer-hold-expired"
+					repMu.Unlock()
+				}
+			}
+			hold.letGo()
+		} else {
+			// saturated: the connection writer is blocked (nothing written to the connection's io buffer for `cycles`
+			// cycles in a row) and in each of these cycles the replay took a line from the spool while conn.In was full.
+			// A queue that is only momentarily full (writer busy, not blocked) does not count.
+			sat := false
+			lastOut, lastFull, streak := readCounters(key).out, 0, 0
+			for time.Since(t0) < 60*time.Second && i+s.Burst <= s.Lines-s.Post && atomic.LoadInt32(&moved) == 0 {
+				for j := 0; j < s.Burst; j++ {
+					i++
+					tr.hand(i)
+				}
+				time.Sleep(gap)
+				f, _, _ := st.unspool()
+				o := readCounters(key).out
+				if o != lastOut {
+					streak = 0
+				} else if f > lastFull {
+					streak++
+				}
+				lastOut, lastFull = o, f
+				if streak >= s.Cycles {
+					sat = true
+					break
+				}
+			}
+			repMu.Lock()
+			rep["saturated"] = sat
+			rep["blocked_cycles"] = streak
+			rep["fill_ms"] = int(time.Since(t0) / time.Millisecond)
+			rep["depth_saturated"] = int(d.VerifSpoolDepth())
+			repMu.Unlock()
+			move()
+		}
+		// 3. traffic goes on after the endpoint's last move (black hole: there is none; the replay stays blocked)
+		for j := 0; j < s.Post && i < s.Lines; j++ {
+			i++
+			tr.hand(i)
+			if s.Burst > 0 && j%s.Burst == s.Burst-1 {
+				time.Sleep(time.Millisecond)
+			}
+		}
+	}()
+	stuck := false
+	tStart := time.Now()
+wait:
+	for {
+		select {
+		case <-done:
+			break wait
+		case <-time.After(20 * time.Millisecond):
+			p := tr.pending()
+			// a call that does not return: the endpoint makes its move nevertheless (a stall ends after 6 s: the call
+			// then lasted longer than the bound; a close does not help a relay that sits in a blocking send)
+			if (s.Kind == "spoolstall" && p > 6*time.Second || s.Kind == "spoolclose" && p > 2*time.Second) && atomic.LoadInt32(&moved) == 0 {
+				move()
+				repMu.Lock()
+				rep["forced"] = true
+				repMu.Unlock()
+			}
+			if p > 12*time.Second {
+				stuck = true
+				if int64(p) > atomic.LoadInt64(&tr.maxNs) {
+					atomic.StoreInt64(&tr.maxNs, int64(p))
+				}
+				atomic.AddInt64(&tr.over, 1)
+				break wait
+			}
+			if time.Since(tStart) > 10*time.Minute {
+				evs = append(evs, ev{"ev": "timeout", "scn": s.ID, "what": "traffic"})
+				return evs
+			}
+		}
+	}
+	if hold != nil {
+		hold.letGo()
+	}
+	if !stuck && failed != "" {
+		evs = append(evs, ev{"ev": "timeout", "scn": s.ID, "what": failed})
+		return evs
+	}
+	h := int(atomic.LoadInt64(&tr.handed))
+	evs = append(evs, ev{"ev": "lat", "scn": s.ID, "calls": h, "max_us": int(atomic.LoadInt64(&tr.maxNs) / 1000),
+		"over_bound": int(atomic.LoadInt64(&tr.over)), "stuck": stuck})
+	repMu.Lock()
+	if gateEv != nil {
+		evs = append(evs, gateEv)
+	}
+	full, drop, taken := st.unspool()
+	c := readCounters(key).sub(base)
+	rep["unspool_full"], rep["unspool_drop"], rep["unspooled"] = full, drop, taken
+	rep["slow_conn"], rep["slow_spool"], rep["out"] = int(c.slowConn), int(c.slowSpool), int(c.out)
+	rep["depth_end"], rep["online"], rep["accepted"] = int(d.VerifSpoolDepth()), online(), int(atomic.LoadInt64(&e.accepted))
+	rep["received"] = int(atomic.LoadInt64(&e.distinct))
+	rep["connbuf"], rep["reconn_ms"] = s.ConnBuf, s.ReconnMs
+	evs = append(evs, rep)
+	repMu.Unlock()
 	return evs
 }
 
